@@ -18,53 +18,11 @@ import vlib, valgen
 
 SCHEMA = os.path.join(vlib.ROOT, "schemas", "valid.json")
 
-BASE = {"MaxNodes": 2, "MaxSecs": 1, "MaxAlias": 0, "MaxArgs": 0, "MaxDirs": 0, "MaxVars": 0, "OpHeads": ["query:"], "FragNames": [],
-        "Fields": [], "Conds": [], "Spreads": [], "ArgPool": [], "DirPool": [], "VarPool": []}
-
-
-def g1_configs(quick):
-    """pool configurations of Gen_ValDoc.tla, each aimed at a group of rules"""
-    c = {}
-    c["shape"] = dict(BASE, MaxNodes=3, MaxAlias=1, Fields=["id", "val", "a", "node", "u", "nope", "__typename"],
-                      Conds=["A", "B", "C", "Node", "U", "Int", "Nope"] if not quick else ["A", "C", "Node", "U", "Int", "Nope"])
-    c["merge"] = dict(BASE, MaxNodes=4 if quick else 5, MaxAlias=2, Fields=["u", "val", "w"] if quick else ["u", "val", "w", "id"], Conds=["A", "B"] if quick else ["A", "B", "Node"])
-    c["args"] = dict(BASE, MaxNodes=2 if quick else 2, MaxArgs=2, MaxVars=1, OpHeads=["query:Q"],
-                     Fields=["fi", "fr", "fd", "fe", "fin", "fl", "fli", "f2", "nope"],
-                     ArgPool=["x=int1", "x=str", "x=null", "x=$v", "y=str", "zz=int1", "e=RED", "e=PURPLE", "e=sRED", "e=int1",
-                              "i=obj", "i=objnob", "i=objunk", "i=objbad", "i=objdup", "i=objdupbad", "i=objdupgood", "i=int1", "i=l1", "i=obj$v", "i=obj$vbad", "i=objnbad", "i=objdnull",
-                              "l=l1", "l=int1", "l=lstr", "l=lnull", "l=l$v", "l=l$vstr", "l=$v", "l=lobj", "l=lobj1", "l=obj"],
-                     VarPool=["v|Int||", "v|Int!||", "v|[Int!]||", "v|String||"])
-    c["dirs"] = dict(BASE, MaxNodes=2, MaxDirs=2, MaxVars=1, OpHeads=["query:Q", "mutation:M"], Fields=["n", "a", "id", "__typename"], Conds=["A"], Spreads=[],
-                     DirPool=["skip(if=true)", "skip", "skip(if=$v)", "include(if=int1)", "include(if=null)", "nope", "deprecated", "tag(v=int1)", "skip(if=true;zz=int1)", "skip(if=true;if=false)"],
-                     VarPool=["v|Boolean!||", "v|Boolean||", "v|Boolean|true|", "v|Int||", "v|Boolean!||nope", "v|Boolean!||skip(if=true)"])
-    c["vars"] = dict(BASE, MaxNodes=2, MaxArgs=2, MaxVars=2, OpHeads=["query:Q"], Fields=["fi", "fr", "fd", "fl", "fin", "fe"],
-                     ArgPool=["x=$v", "x=$w", "x=$zz", "l=$v", "l=l$v", "i=$v", "i=obj$v", "e=$v", "x=int1"],
-                     VarPool=["v|Int||", "v|Int!||", "v|Int|int1|", "v|Int|null|", "v|Int|str|", "v|[Int]||", "v|[Int!]!||", "v|String||", "v|Color|RED|", "v|Color|sRED|", "v|In||", "v|In|obj|", "v|In|int1|",
-                              "v|A||", "v|Nope||", "v|[Nope]|l1|", "v|[Nope]|lempty|", "v|Nope!|int1|", "w|Int||", "v|Float||"])
-    c["frags"] = dict(BASE, MaxNodes=4 if quick else 5, MaxSecs=3, Fields=["a", "id", "c"], Conds=["A", "C", "Int", "Nope", "Query"], FragNames=["F1", "F2"], Spreads=["F1", "F2", "Nope"])
-    c["ops"] = dict(BASE, MaxNodes=3, MaxSecs=2, MaxAlias=1, OpHeads=["query:", "query:Q", "query:R", "mutation:Q", "subscription:S", "subscription:"],
-                    Fields=["n", "tick", "tock", "bump", "__typename", "id"], Conds=["Subscription"] if quick else ["Subscription", "A"])
-    return c
-
-
-def tla_set(xs):
-    return "{" + ", ".join('"%s"' % x.replace("\\", "\\\\").replace('"', '\\"') for x in xs) + "}"
-
-
-def write_cfg(path, conf, invariants):
-    with open(path, "w") as f:
-        for k, v in conf.items():
-            f.write("CONSTANT %s = %s\n" % (k, tla_set(v) if isinstance(v, list) else v))
-        f.write("INIT Init\nNEXT Next\n")
-        for i in invariants:
-            f.write("INVARIANT %s\n" % i)
-
-
 def run_g1(c, confs):
     def one(item):
         label, conf = item
         cfg = c.path("Gen_%s.cfg" % label)
-        write_cfg(cfg, conf, ["TypeOK", "DepthOK", "NoEmptySet", "Emit"])
+        valgen.write_cfg(cfg, conf, ["TypeOK", "DepthOK", "NoEmptySet", "Emit"])
         return label, vlib.run_tlc("gql/Gen_ValDoc.tla", cfg, workers=3, timeout=3000, keep_lines=20, xmx="4g")
     with ThreadPoolExecutor(4) as ex:
         results = list(ex.map(one, sorted(confs.items())))
@@ -91,7 +49,7 @@ def body(c):
     rng = random.Random(c.seed)
     # ---- M: the generator state machine with its invariants (small pools, complete) ----
     mcfg = c.path("MC_ValDoc.cfg")
-    write_cfg(mcfg, dict(BASE, MaxNodes=3, MaxSecs=2, MaxAlias=1, MaxArgs=1, MaxDirs=1, MaxVars=1, OpHeads=["query:", "query:Q"], FragNames=["F1"],
+    valgen.write_cfg(mcfg, dict(valgen.BASE, MaxNodes=3, MaxSecs=2, MaxAlias=1, MaxArgs=1, MaxDirs=1, MaxVars=1, OpHeads=["query:", "query:Q"], FragNames=["F1"],
                          Fields=["a", "id"], Conds=["A"], Spreads=["F1"], ArgPool=["x=int1"], DirPool=["skip(if=true)"], VarPool=["v|Int||"]),
               ["TypeOK", "DepthOK", "NoEmptySet"])
     m = vlib.run_tlc("gql/Gen_ValDoc.tla", mcfg, workers=4, timeout=600, coverage=True, keep_lines=2000)
@@ -102,7 +60,7 @@ def body(c):
             raise vlib.ToolError("generator action %s never taken" % act)
     c.add_tlc("M Gen_ValDoc", m)
     # ---- G1 ----
-    confs = g1_configs(c.quick)
+    confs = valgen.g1_configs(c.quick)
     g1 = run_g1(c, confs)
     cap = 450 if c.quick else 30000
     cases, exhaustive, g1_total = [], True, 0
